@@ -505,3 +505,31 @@ def calls_in(st, pred=None):
 def is_method_call(t, method, obj=None):
     return (t[0] == 'call' and t[1][0] == 'attr' and t[1][2] == method
             and (obj is None or t[1][1] == obj))
+
+
+def subterms_guarded(t, guards=()):
+    """like subterms(), but yields (subterm, guards) where guards are the (condition, polarity) pairs under
+    which the subterm is evaluated inside conditional expressions and short-circuit operators."""
+    if not isinstance(t, tuple) or not t:
+        return
+    if isinstance(t[0], str):
+        yield t, guards
+        if t[0] == 'ifexp':
+            for r in subterms_guarded(t[1], guards):
+                yield r
+            for r in subterms_guarded(t[2], guards + ((t[1], True),)):
+                yield r
+            for r in subterms_guarded(t[3], guards + ((t[1], False),)):
+                yield r
+            return
+        if t[0] == 'bool':
+            g = guards
+            for x in t[2]:
+                for r in subterms_guarded(x, g):
+                    yield r
+                g = g + ((x, t[1] == 'and'),)
+            return
+    for x in t:
+        if isinstance(x, tuple):
+            for r in subterms_guarded(x, guards):
+                yield r
